@@ -354,6 +354,8 @@ def mk_bin(op, a, b):
 def mk_call(f, args, kw):
     """generic call term with the conversions that have a canonical form"""
     args = tuple(args)
+    if f == G("jax.random.split") and len(args) == 2 and args[1] == C(2) and not kw:
+        args = args[:1]  # split(key, 2) is split(key)
     if not args and not kw and is_t(f, "attr") and f[2] in ("items", "keys", "values") and is_t(f[1], "dictfam"):
         d = f[1]
         return ("fam", d[1], {"items": mk_tuple((d[2], d[3])), "keys": d[2], "values": d[3]}[f[2]])
@@ -538,8 +540,8 @@ def mk_proj(base, i: int):
         return ("treemap", mk_proj(base[1], i), base[2])
     if is_t(base, "leaf"):
         return ("leaf", mk_proj(base[1], i))
-    if is_t(base, "slice") and i >= 0 and isinstance(base[2], int) and base[2] >= 0:
-        return mk_proj(base[1], base[2] + i)
+    if is_t(base, "slice") and i >= 0 and (base[2] is None or (isinstance(base[2], int) and base[2] >= 0)) and (base[3] is None or (isinstance(base[3], int) and (base[3] < 0 or i < base[3] - (base[2] or 0)))):
+        return mk_proj(base[1], (base[2] or 0) + i)  # x[a:b][i] is x[a + i] (within the slice)
     return ("proj", base, i)
 
 
@@ -1318,6 +1320,18 @@ class _Ctx:
                 if len(args) <= len(sig) and set(kwargs) <= set(sig[len(args):]) and all(n in kwargs for n in sig[len(args):len(args) + len(kwargs)]):
                     args = list(args) + [kwargs[n] for n in sig[len(args):len(args) + len(kwargs)]]
                     kwargs = {}
+        if kwargs and is_t(f, "attr") and is_t(f[1], "ctor") and "**" not in kwargs and not any(is_t(x, "star") for x in args):
+            # Cls(...).m(a, p=b): the receiver's class is known, its method's parameter names bind the keywords
+            cis_ = ev.prog.class_index.get(f[1][1], [])
+            hit_ = ev.prog.find_method(cis_[0], f[2]) if len(cis_) == 1 else None
+            if hit_ is not None and not _is_static(hit_[1]):
+                sig = [a_.arg for a_ in hit_[1].args.args][1:]
+                args, kwargs = list(args), dict(kwargs)
+                for pn_ in sig[len(args):]:
+                    if pn_ in kwargs:
+                        args.append(kwargs.pop(pn_))
+                    else:
+                        break
         if kwargs and is_t(f, "attr") and f[1] != P("self") and "**" not in kwargs and not self._GFI_SIG.get(f[2]) and not any(is_t(x, "star") for x in args):
             sig = ev.method_sig(f[2])
             if sig:
